@@ -63,6 +63,7 @@ RHS_5 = ((), (("1", 1),), (("1", 2),), (("p", 1),), (("p", 1), ("q", 1)))   # 0 
 RHS_EXTRA = ((("a0", 1),), (("p", 2), ("1", -1)), (("p", -1), ("q", 2), ("1", 3)))  # a[0] 2p-1 ..
 RHS_3 = ((), (("1", 1),), (("p", 1),))               # 0 1 p (systems with 3 equations / unknowns)
 UNKNOWNS = ("x", "y", "z")
+ROWS_4X2 = ((1, 0), (0, 1), (1, 1), (1, -1))          # equation rows of the 4x2 systems (quick)
 # parameters / unknowns that print alike (family sys-alike): per pair (P, Q) of distinct expressions
 # with str(P) == str(Q) the right-hand sides  P, Q, P + 2Q, 2P - Q + 1
 ALIKE_PAIRS = (("a0", "a0v"), ("sf", "sfv"))
@@ -519,7 +520,11 @@ class C15(Check):
         "['x']. Solver (family sys): every integer system of shape (eqs "
         "x unknowns) 1x1 (coefficients -3..3), 2x1, 1x2, 2x2 (coefficients -2..2) with right-hand "
         "sides from {0,1,2,p,p+q} (1x1/2x1 also a[0], 2p-1, -p+2q+3), 3x2, 2x3 and (thorough) 3x3 "
-        "with coefficients -1..1 and right-hand sides from {0,1,p}; these sets are closed under "
+        "with coefficients -1..1 and right-hand sides from {0,1,p}; systems with two and three "
+        "equations beyond the unknowns (several pivot-free rows: a contradictory equation "
+        "before, between and after redundant ones): 3x1 (coefficients -2..2), 4x1 (-1..1), 4x2 "
+        "with every equation row from x, y, x+y, x-y (thorough also all rows over -1..1 with "
+        "right-hand sides 0/1), right-hand sides from {0,1,p}; these sets are closed under "
         "permuting equations; each written in up to 5 equivalent (lhs, rhs) forms (unknowns left; "
         "sides swapped; one unknown kept left; everything left and 0 right; every unknown, "
         "parameter and the constant on BOTH sides) with the unknown list in every order (quick "
@@ -597,8 +602,16 @@ class C15(Check):
         yield from self.gen_sys(2, 2, COEFF_2, RHS_5, ("std", "split") if quick else O.FORMS)
         if not first:
             return
+        # two and more equations beyond the number of unknowns (several rows without a pivot after
+        # elimination: a contradictory one may come before, between or after redundant ones)
+        yield from self.gen_sys(3, 1, COEFF_2, RHS_3, ("std", "split"))
+        yield from self.gen_sys(4, 1, COEFF_3, RHS_3, ("std",))
         yield from self.gen_sys(3, 2, COEFF_3, RHS_3, ("std",) if quick else ("std", "split"))
         yield from self.gen_sys(2, 3, COEFF_3, RHS_3, ("std",), all_orders=not quick)
+        yield from self.gen_sys(4, 2, None, RHS_3, ("std",), all_orders=not quick,
+                                row_pool=ROWS_4X2)
+        if not quick:
+            yield from self.gen_sys(4, 2, COEFF_3, RHS_3[:2], ("std",), all_orders=False)
         if not quick:
             yield from self.gen_sys(3, 3, COEFF_3, RHS_3, ("std",), all_orders=False)
             yield from self.gen_sys(3, 3, COEFF_3, RHS_3, ("split",), all_orders=True,
@@ -685,14 +698,18 @@ class C15(Check):
                     yield ("cc", ("Sum", T(("Product", T(c, a)), b)), "alike")
 
     def gen_sys(self, m, n, coeffs, rhs_pool, forms, all_orders=True, rhs_combos=None,
-                names=UNKNOWNS):
+                names=UNKNOWNS, row_pool=None):
         names = names[:n]
         orders = list(itertools.permutations(names)) if all_orders else [names]
         if rhs_combos is None:
             rhs_combos = itertools.product(range(len(rhs_pool)), repeat=m)
         rhs_combos = list(rhs_combos)
-        for flat in itertools.product(coeffs, repeat=m * n):
-            rows = tuple(tuple(flat[i * n:(i + 1) * n]) for i in range(m))
+        if row_pool is not None:
+            all_rows = itertools.product(row_pool, repeat=m)
+        else:
+            all_rows = (tuple(tuple(flat[i * n:(i + 1) * n]) for i in range(m))
+                        for flat in itertools.product(coeffs, repeat=m * n))
+        for rows in all_rows:
             for rc in rhs_combos:
                 rhss = tuple(rhs_pool[k] for k in rc)
                 for form in forms:
